@@ -58,7 +58,16 @@ pub fn run(tier: Tier, seed: u64) -> i32 {
 
     shapes.par_iter().for_each(|&(w, h)| {
         let cells = w as usize * h as usize;
-        for &d in &digit_counts {
+        let mut dcs = digit_counts.clone();
+        if tier == Tier::Thorough && cells <= 30 {
+            dcs.extend([5u8, 6, 7, 9, 10, 16]);
+        } else if cells <= 12 {
+            dcs.extend([6u8, 10]);
+        }
+        if cells <= 2 {
+            dcs.push(255);
+        }
+        for &d in &dcs {
             let n_pass = tier.pick(4, 5);
             for pass in 0..n_pass {
                 let data = card_data(pass, cells, d as usize, seed);
@@ -101,6 +110,13 @@ pub fn run(tier: Tier, seed: u64) -> i32 {
             counts.sort();
             counts.dedup();
             let mut seeds: Vec<u64> = vec![0, 1, 1 << 32, 1 << 63, u64::MAX, u64::from_le_bytes(refmodel::ctr_array::<8>(seed, "mseed"))];
+            // multiples of the cell count and of its factorial-base weights, values around 2^63
+            for k in if tier == Tier::Thorough { vec![1u64, 2, 3, 255] } else { vec![1u64] } {
+                seeds.push(k * cells as u64);
+                seeds.push((k * cells as u64).wrapping_mul(cells.saturating_sub(1).max(1) as u64));
+            }
+            seeds.push((1u64 << 63) + cells as u64);
+            seeds.push((1u64 << 63) - 1);
             if cells <= 12 {
                 // every index triple of small cards
                 let lim = (cells * cells.saturating_sub(1).max(1) * cells.saturating_sub(2).max(1)) as u64;
